@@ -38,4 +38,5 @@ def _level_ok(ex, st, g, z):
     return VBool(z3.And(0 <= z.t, z.t < lv.t))
 
 
-ghost('level_ok', ['g', 'z'], _level_ok)
+ghost('level_ok', ['g', 'z'], _level_ok,
+      concrete=lambda g, z: (z in g.grid_sizes) if isinstance(z, str) else 0 <= z < g.levels)
